@@ -53,6 +53,7 @@ func init() {
 		"Structural necessary conditions of 'WKB/EWKB is lossless': coordinates are only moved and bit-cast on the codec path (no float computation, so every float64 bit pattern survives); every member loop of the writer covers all members. Value-level round-trip equality is NOT decided.",
 		ruleFloatPure(inWKB, nil, 70),
 		ruleMemberLoops(inWKB, 10, 0),
+		ruleWKBTables,
 	)
 
 	register("C03",
